@@ -1511,9 +1511,11 @@ impl Add<Time> for DateTime {
 
     fn add(self, rhs: Time) -> Self::Output {
         let nanos = self.as_nanos() + rhs.as_nanos() as i128;
+        let (days, nanoseconds) = nanos_to_days_nanos(nanos)
+            .unwrap_or_else(|_| panic!("Addition would result into an out of range datetime"));
         Self {
-            days: (nanos / NANOS_PER_DAY as i128) as i32,
-            nanoseconds: (nanos % NANOS_PER_DAY as i128) as u64,
+            days,
+            nanoseconds,
             offset: self.offset,
         }
     }
@@ -1529,9 +1531,11 @@ impl Sub<Time> for DateTime {
 
     fn sub(self, rhs: Time) -> Self::Output {
         let nanos = self.as_nanos() - rhs.as_nanos() as i128;
+        let (days, nanoseconds) = nanos_to_days_nanos(nanos)
+            .unwrap_or_else(|_| panic!("Subtraction would result into an out of range datetime"));
         Self {
-            days: (nanos / NANOS_PER_DAY as i128) as i32,
-            nanoseconds: (nanos % NANOS_PER_DAY as i128) as u64,
+            days,
+            nanoseconds,
             offset: self.offset,
         }
     }
@@ -1547,9 +1551,11 @@ impl Add<Duration> for DateTime {
 
     fn add(self, rhs: Duration) -> Self::Output {
         let nanos = self.as_nanos() + rhs.as_nanos() as i128;
+        let (days, nanoseconds) = nanos_to_days_nanos(nanos)
+            .unwrap_or_else(|_| panic!("Addition would result into an out of range datetime"));
         Self {
-            days: (nanos / NANOS_PER_DAY as i128) as i32,
-            nanoseconds: (nanos % NANOS_PER_DAY as i128) as u64,
+            days,
+            nanoseconds,
             offset: self.offset,
         }
     }
@@ -1565,9 +1571,11 @@ impl Sub<Duration> for DateTime {
 
     fn sub(self, rhs: Duration) -> Self::Output {
         let nanos = self.as_nanos() - rhs.as_nanos() as i128;
+        let (days, nanoseconds) = nanos_to_days_nanos(nanos)
+            .unwrap_or_else(|_| panic!("Subtraction would result into an out of range datetime"));
         Self {
-            days: (nanos / NANOS_PER_DAY as i128) as i32,
-            nanoseconds: (nanos % NANOS_PER_DAY as i128) as u64,
+            days,
+            nanoseconds,
             offset: self.offset,
         }
     }
